@@ -345,7 +345,11 @@ def rule_k6(ctx, F, parts=("rank", "slots", "final", "side", "init")):
                         if e_.get("k") == "Path" and e_["to"].get("res") == "local":
                             for m_, _ in hir.walk(body):
                                 if m_.get("k") == "SLet" and m_["pat"].get("k") == "PBind" and m_["pat"].get("id") == e_["to"]["id"] and m_.get("init") is not None:
-                                    init = hir.sym_int(hir.fold(hir.resolve_consts(sym(m_["init"]), F), {}))
+                                    iv = hir.fold(hir.resolve_consts(sym(m_["init"]), F), {})
+                                    init = hir.sym_int(iv)
+                                    # `slots.iter().fold(0, |acc, k| acc ^ k)`: the accumulator of the fold is what starts at 0
+                                    if init is None and iv[:1] == ("call",) and str(iv[1]).endswith("::fold") and len(iv[2]) == 3:
+                                        init = hir.sym_int(iv[2][1])
                         else:
                             init = hir.sym_int(hir.fold(hir.resolve_consts(sym(f_["e"]), F), {}))
         ctx.check("C04.K6", "hash-accumulator-starts-at-zero", init == 0, fn=fn["path"], file=fn["file"],
